@@ -120,10 +120,11 @@ func nbnsLabel(name string) string {
 func ip4hex(a netip.Addr) string { b := a.As4(); return hex.EncodeToString(b[:]) }
 
 type outcome struct {
-	frames  [][]byte
-	err     string
-	primary func(f *vh.AbsFrame) bool // selects the frame the vector is about (nil: the only one)
-	skipped string
+	directed string // how a directed value was chosen ("" = not asked for)
+	frames   [][]byte
+	err      string
+	primary  func(f *vh.AbsFrame) bool // selects the frame the vector is about (nil: the only one)
+	skipped  string
 }
 
 func dhcpClientFrame(e *vh.WireEnv, srcIP, dstIP netip.Addr, dstMAC net.HardwareAddr, xid uint32, flags uint16, ci netip.Addr, opts []vh.DHCP4Opt) []byte {
@@ -175,8 +176,15 @@ func (s *sender) dhcpScenario(c *nicCtx, e *vh.WireEnv, call jmap, rng *rand.Ran
 	e.Args["arg.clientid"] = hex.EncodeToString(e.MAC("mac1"))
 	e.Args["arg.yiaddr"] = "any"
 	zero, bc := netip.IPv4Unspecified(), e.IP("bcast4")
+	var cid []vh.DHCP4Opt // client identifier option of every message of this client
+	if jstr(call, "cid") == "long" {
+		id := append([]byte{0}, randBytes(rng, 59)...) // 60 bytes: replies that echo it pass 300 bytes
+		cid = []vh.DHCP4Opt{{Code: 61, Data: id}}
+		e.Args["arg.clientid"] = hex.EncodeToString(id)
+	}
+	with := func(o ...vh.DHCP4Opt) []vh.DHCP4Opt { return append(append([]vh.DHCP4Opt{}, o...), cid...) }
 	discover := func() (netip.Addr, error) {
-		if err := deliverDHCP(sess, h, dhcpClientFrame(e, zero, bc, e.MAC("bcast"), xid, 0, zero, []vh.DHCP4Opt{{Code: 53, Data: []byte{1}}, {Code: 55, Data: []byte{1, 3, 6}}})); err != nil {
+		if err := deliverDHCP(sess, h, dhcpClientFrame(e, zero, bc, e.MAC("bcast"), xid, 0, zero, with(vh.DHCP4Opt{Code: 53, Data: []byte{1}}, vh.DHCP4Opt{Code: 55, Data: []byte{1, 3, 6}}))); err != nil {
 			return netip.Addr{}, err
 		}
 		o := lastDHCP(conn.Take(), 67, 2)
@@ -188,7 +196,7 @@ func (s *sender) dhcpScenario(c *nicCtx, e *vh.WireEnv, call jmap, rng *rand.Ran
 	selectReq := func(ip, server netip.Addr) error {
 		a, sv := ip.As4(), server.As4()
 		return deliverDHCP(sess, h, dhcpClientFrame(e, zero, bc, e.MAC("bcast"), xid, 0, zero,
-			[]vh.DHCP4Opt{{Code: 53, Data: []byte{3}}, {Code: 50, Data: a[:]}, {Code: 54, Data: sv[:]}, {Code: 55, Data: []byte{1, 3, 6}}}))
+			with(vh.DHCP4Opt{Code: 53, Data: []byte{3}}, vh.DHCP4Opt{Code: 50, Data: a[:]}, vh.DHCP4Opt{Code: 54, Data: sv[:]}, vh.DHCP4Opt{Code: 55, Data: []byte{1, 3, 6}})))
 	}
 	var err error
 	out := outcome{}
@@ -198,7 +206,7 @@ func (s *sender) dhcpScenario(c *nicCtx, e *vh.WireEnv, call jmap, rng *rand.Ran
 		switch {
 		case mt == 2:
 			err = deliverDHCP(sess, h, dhcpClientFrame(e, zero, bc, e.MAC("bcast"), xid, 0x8000*uint16(rng.Intn(2)), zero,
-				[]vh.DHCP4Opt{{Code: 53, Data: []byte{1}}, {Code: 55, Data: []byte{3, 1, 6}}}))
+				with(vh.DHCP4Opt{Code: 53, Data: []byte{1}}, vh.DHCP4Opt{Code: 55, Data: []byte{3, 1, 6}})))
 		case mt == 6:
 			err = selectReq(e.IP("lan4"), c.nic.RouterIP)
 			e.Args["arg.yiaddr"] = "0.0.0.0"
@@ -213,7 +221,7 @@ func (s *sender) dhcpScenario(c *nicCtx, e *vh.WireEnv, call jmap, rng *rand.Ran
 			e.Args["arg.yiaddr"] = offered.String()
 			if !jbool(call, "bcast") { // renewing: unicast request from the leased address
 				conn.Take()
-				err = deliverDHCP(sess, h, dhcpClientFrame(e, offered, c.nic.HostIP, c.nic.HostMAC, rng.Uint32(), 0, offered, []vh.DHCP4Opt{{Code: 53, Data: []byte{3}}}))
+				err = deliverDHCP(sess, h, dhcpClientFrame(e, offered, c.nic.HostIP, c.nic.HostMAC, rng.Uint32(), 0, offered, with(vh.DHCP4Opt{Code: 53, Data: []byte{3}})))
 				e.Args["arg.xid"] = "any"
 			}
 		}
@@ -222,7 +230,7 @@ func (s *sender) dhcpScenario(c *nicCtx, e *vh.WireEnv, call jmap, rng *rand.Ran
 		offered, sv := e.IP("lan4").As4(), c.nic.RouterIP.As4()
 		e.Args["arg.server"], e.Args["arg.offered"] = hex.EncodeToString(sv[:]), hex.EncodeToString(offered[:])
 		msg := vh.DHCP4(2, xid, 0, zero, e.IP("lan4"), netip.Addr{}, netip.Addr{}, e.MAC("mac1"),
-			[]vh.DHCP4Opt{{Code: 53, Data: []byte{2}}, {Code: 54, Data: sv[:]}, {Code: 51, Data: []byte{0, 0, 14, 16}}})
+			with(vh.DHCP4Opt{Code: 53, Data: []byte{2}}, vh.DHCP4Opt{Code: 54, Data: sv[:]}, vh.DHCP4Opt{Code: 51, Data: []byte{0, 0, 14, 16}}))
 		err = deliverDHCP(sess, h, vh.FrameIP4UDP(c.nic.RouterMAC, e.MAC("bcast"), c.nic.RouterIP, bc, 67, 68, msg))
 		conn.WaitLen(1, 500*time.Millisecond)
 		out.primary = func(a *vh.AbsFrame) bool { return a.DHCP != nil && a.DHCP.MsgType == 4 }
@@ -311,16 +319,23 @@ func (s *sender) call(c *nicCtx, e *vh.WireEnv, call jmap, rng *rand.Rand) (out 
 		xid := randBytes(rng, 4)
 		e.Args["arg.xid"] = hex.EncodeToString(xid)
 		name := ""
-		if jbool(call, "named") {
+		switch jstr(call, "name") {
+		case "short":
 			name = "host-" + strconv.Itoa(rng.Intn(1000))
+		case "long": // 60 characters: the option area passes 60 bytes, the message 300
+			name = strings.Repeat("n", 50) + fmt.Sprintf("-%09d", rng.Intn(1000000000))
 		}
 		e.Args["arg.name"] = hex.EncodeToString([]byte(name))
 		err = h.SendDiscoverPacket(e.MAC(jstr(call, "ch")), e.IP(jstr(call, "ci")), xid, name)
 		return outcome{frames: conn.Take(), err: errText(err)}
 	case "ICMP4SendEchoRequest":
-		err = sess.ICMP4SendEchoRequest(addrOf(e, jobj(call, "src")), addrOf(e, jobj(call, "dst")), id, seq)
+		src, dst := addrOf(e, jobj(call, "src")), addrOf(e, jobj(call, "dst"))
+		id, seq, dst = directedEcho(jstr(call, "idc"), false, c.nic, e, src, dst, id, seq, &out)
+		err = sess.ICMP4SendEchoRequest(src, dst, id, seq)
 	case "ICMP6SendEchoRequest":
-		err = sess.ICMP6SendEchoRequest(addrOf(e, jobj(call, "src")), dst6(e, jstr(call, "dst")), id, seq)
+		src, dst := addrOf(e, jobj(call, "src")), dst6(e, jstr(call, "dst"))
+		id, seq, dst = directedEcho(jstr(call, "idc"), true, c.nic, e, src, dst, id, seq, &out)
+		err = sess.ICMP6SendEchoRequest(src, dst, id, seq)
 	case "ICMP6SendNeighborAdvertisement":
 		err = sess.ICMP6SendNeighborAdvertisement(addrOf(e, jobj(call, "src")), dst6(e, jstr(call, "dst")), addrOf(e, jobj(call, "tgt")))
 	case "ICMP6SendNeighbourSolicitation":
@@ -386,7 +401,8 @@ func (s *sender) call(c *nicCtx, e *vh.WireEnv, call jmap, rng *rand.Rand) (out 
 	default:
 		panic("unknown send function " + f)
 	}
-	return outcome{frames: c.conn.Take(), err: errText(err)}
+	out.frames, out.err = c.conn.Take(), errText(err)
+	return out
 }
 
 func frameFields(m jmap) map[string]interface{} {
@@ -446,6 +462,12 @@ func (s *sender) runVector(v jmap, inst int, seed int64, r *result) {
 	c := s.get(jstr(v, "nic"))
 	rng := rand.New(rand.NewSource(seed))
 	e := vh.NewWireEnv(c.nic, rng)
+	if jstr(call, "idc") == "sweep" {
+		if inst == 0 {
+			s.sweepEcho(c, e, call, rng, r)
+		}
+		return
+	}
 	s.calls++
 	if s.calls%50 == 0 { // keep the NIC monitors of the long-lived sessions quiet
 		for _, x := range s.ctx {
@@ -464,6 +486,9 @@ func (s *sender) runVector(v jmap, inst int, seed int64, r *result) {
 	if out.skipped != "" {
 		r.Skipped = out.skipped
 		return
+	}
+	if out.directed != "" {
+		r.add("note", "directed."+out.directed, "%s", out.directed)
 	}
 	exp, mech := jobj(v, "exp"), jobj(v, "mech")
 	clean := jbool(v, "clean")
